@@ -127,7 +127,7 @@ Lemma step_inv ws s log a : PInv ws s log -> incl (step_worker a) ws -> claim_ok
   PInv ws (fst (step_p s a)) (log ++ acc a).
 Proof.
   intros I W OK. destruct I as [Sp [Srt Flt] Ws One Hd Dn].
-  destruct a as [ops|ops|w|w|w|w|w|w|n|p| | | | |]; cbn [PartOutbox.step_p acc]; try rewrite app_nil_r;
+  destruct a as [ops|ops|w|w|w|w|w|w|n|p| | | | | |p'|p'| ]; cbn [PartOutbox.step_p acc]; try rewrite app_nil_r;
     try (cbn [fst]; split; auto; fail);
     try (destruct (listing s) as [[es0|i0]|]; cbn [fst]; split; auto; fail).
   - (* commit *)
@@ -215,7 +215,7 @@ Proof.
       rewrite wupd_other, Idle in H by assumption. discriminate.
   - (* heartbeat *)
     assert (G : forall id, PInv ws {| entries := map_entry (entries s) id (fun e => if owned_by e w then set_owner e (Some w) (now s + lease)%N else e);
-                          inner_parts := inner_parts s; now := now s; pnext := pnext s; workers := workers s; listing := listing s |} log).
+                          inner_parts := inner_parts s; now := now s; pnext := pnext s; workers := workers s; listing := listing s; reading := reading s |} log).
     { intros id. split; cbn [entries inner_parts now pnext workers]; auto.
       - rewrite eops_map_entry; [exact Sp|]. intros e. destruct (owned_by e w); reflexivity.
       - rewrite ids_map_entry by (intros e; destruct (owned_by e w); reflexivity). split; [exact Srt|].
@@ -255,6 +255,9 @@ Proof.
       rewrite wupd_other in H by assumption. apply Hd. exact H.
     + intros w' i o' H. destruct (Nat.eq_dec w' w) as [->|N]; [rewrite wupd_same in H; discriminate|].
       rewrite wupd_other in H by assumption. eapply Dn; eauto.
+  - (* tx-free read, first lookup: only the reader's state changes *)
+    repeat (match goal with |- context [match ?x with _ => _ end] => destruct x end); cbn [fst]; split; auto.
+  - repeat (match goal with |- context [match ?x with _ => _ end] => destruct x end); cbn [fst]; split; auto.
 Qed.
 
 Lemma run_inv ws tr : forall s log, PInv ws s log -> incl (trace_workers tr) ws -> no_steal lease UP s ws tr = true ->
@@ -314,7 +317,7 @@ Lemma list_step ws s log a : PInv ws s log -> LInv s log -> listing_ok s a = tru
   LInv (fst (step_p s a)) (log ++ acc a).
 Proof.
   intros I L Q. destruct I as [Sp [Srt Flt] Ws One Hd Dn]. unfold LInv in *.
-  destruct a as [ops|ops|w|w|w|w|w|w|n|p| | | | |]; cbn [PartOutbox.step_p acc]; try rewrite app_nil_r.
+  destruct a as [ops|ops|w|w|w|w|w|w|n|p| | | | | |p'|p'| ]; cbn [PartOutbox.step_p acc]; try rewrite app_nil_r.
   - (* commit: only with no listing in progress *)
     unfold listing_ok in Q. destruct (commit_ops (entries s) (pnext s) ops) as [es n]. cbn [fst listing].
     intros es0 H. rewrite H in Q. discriminate.
@@ -348,6 +351,9 @@ Proof.
   - destruct (listing s) as [[es1|i1]|] eqn:Ls; cbn [fst listing]; try (rewrite Ls; exact L). intros es0 H. discriminate.
   - destruct (listing s) as [l|] eqn:Ls; [cbn [fst]; rewrite Ls; exact L|]. cbn [fst listing]. intros es0 H. discriminate.
   - destruct (listing s) as [[es1|i1]|] eqn:Ls; cbn [fst listing]; try (rewrite Ls; exact L). intros es0 H. discriminate.
+  - exact L.
+  - repeat (match goal with |- context [match ?x with _ => _ end] => destruct x end); cbn [fst listing entries inner_parts]; exact L.
+  - repeat (match goal with |- context [match ?x with _ => _ end] => destruct x end); cbn [fst listing entries inner_parts]; exact L.
 Qed.
 
 Lemma run_inv_list ws tr : forall s log, PInv ws s log -> LInv s log -> incl (trace_workers tr) ws ->
@@ -378,6 +384,241 @@ Proof.
   destruct (run_inv_list _ tr pinit [] (PInv_init _) (fun es0 E => ltac:(discriminate E)) (incl_refl _) NS Q) as [_ L].
   cbn [app] in L. destruct (L es0 H) as [_ Eq]. unfold overlay_ids. apply filter_ext. intros p.
   unfold overlay. rewrite (Eq p), fold_last, last_for_eops. reflexivity.
+Qed.
+
+(* ---- the tx-free GetPart, lookup by lookup under statement-level isolation ---- *)
+Definition keys (es : list pentry) : list (N * pop) := map (fun e => (pe_id e, pe_op e)) es.
+Definition RInv (s : pstate) (log : list pop) : Prop :=
+  forall r, reading s = Some r ->
+  rd_tries r = 1 /\
+  match rd_phase r with
+  | RPre => forall i o, In (i, o) (keys (entries s)) -> pop_pid o <> rd_pid r
+  | RLooked id c | RStream id c _ =>
+      spec_store log (rd_pid r) = Some c /\
+      (forall i o, In (i, o) (keys (entries s)) -> pop_pid o = rd_pid r -> (i <= id)%N) /\
+      (In id (map fst (keys (entries s))) \/ forall i o, In (i, o) (keys (entries s)) -> (id < i)%N)
+  end.
+
+Lemma no_entry_last_none es p : (forall i o, In (i, o) (keys es) -> pop_pid o <> p) -> last_entry es p = None.
+Proof.
+  intros H. unfold last_entry. destruct (find _ (rev es)) as [e|] eqn:F; [|reflexivity]. exfalso.
+  pose proof (find_some _ _ F) as [FS1 FS2]. cbn in FS2. apply N.eqb_eq in FS2.
+  apply (H (pe_id e) (pe_op e)); [|exact FS2]. unfold keys. apply in_rev in FS1.
+  apply (in_map (fun e => (pe_id e, pe_op e))) in FS1. exact FS1.
+Qed.
+
+Lemma keys_map_entry es id f : (forall e, pe_op (f e) = pe_op e) -> (forall e, pe_id (f e) = pe_id e) ->
+  keys (map_entry es id f) = keys es.
+Proof.
+  intros H1 H2. unfold keys, map_entry. rewrite map_map. apply map_ext. intros e.
+  destruct (pe_id e =? id)%N; [now rewrite H1, H2 | reflexivity].
+Qed.
+Lemma present_keys es id : present es id = true <-> In id (map fst (keys es)).
+Proof.
+  unfold present, keys. rewrite map_map. cbn. rewrite existsb_exists. split.
+  - intros (e & He & E). apply N.eqb_eq in E. subst. now apply in_map.
+  - intros H. apply in_map_iff in H as (e & E & He). exists e. split; [exact He | now apply N.eqb_eq].
+Qed.
+Lemma last_entry_for es p : last_for es p = option_map snd (last_entry es p).
+Proof. unfold last_for, last_entry. destruct (find _ (rev es)); reflexivity. Qed.
+
+(* the last entry of a part carries the greatest id among the part's entries *)
+Lemma last_entry_max es p id o : StronglySorted N.lt (map pe_id es) -> last_entry es p = Some (id, o) ->
+  In id (map fst (keys es)) /\ pop_pid o = p /\
+  forall i o', In (i, o') (keys es) -> pop_pid o' = p -> (i <= id)%N.
+Proof.
+  unfold last_entry. induction es as [|x es IH] using rev_ind; [cbn; discriminate|].
+  rewrite rev_app_distr, map_app. cbn [rev List.app find map]. intros S F.
+  assert (S' : StronglySorted N.lt (map pe_id es) /\ Forall (fun y => (y < pe_id x)%N) (map pe_id es)).
+  { clear -S. induction (map pe_id es) as [|a l IHl]; cbn in *; [split; constructor|].
+    inversion S as [|? ? S1 F1]; subst. destruct (IHl S1) as [A HB]. apply Forall_app in F1 as [F1 F2].
+    split; constructor; auto. inversion F2; assumption. }
+  destruct S' as [S1 S2].
+  assert (KA : keys (es ++ [x]) = keys es ++ [(pe_id x, pe_op x)]) by (unfold keys; now rewrite map_app).
+  rewrite KA, map_app. cbn [map fst].
+  simpl in F. destruct (pop_pid (pe_op x) =? p)%N eqn:E; simpl in F.
+  - inversion F; subst. apply N.eqb_eq in E. split; [apply in_or_app; right; left; reflexivity|]. split; [exact E|].
+    intros i o' H Hp. apply in_app_or in H as [H|[H|[]]].
+    + unfold keys in H. apply in_map_iff in H as (e & He & Ie). inversion He; subst.
+      rewrite Forall_map, Forall_forall in S2. specialize (S2 e Ie). cbn in S2. lia.
+    + inversion H; subst. lia.
+  - destruct (IH S1 F) as (A & HB & C). split; [apply in_or_app; left; exact A|]. split; [exact HB|].
+    intros i o' H Hp. apply in_app_or in H as [H|[H|[]]]; [apply (C i o' H Hp)|].
+    inversion H; subst. apply N.eqb_neq in E. congruence.
+Qed.
+
+Definition reading_ok (s : pstate) (a : pstep) : bool :=
+  match a, reading s with SCommit _, Some _ => false | _, _ => true end.
+
+(* what a fresh first lookup establishes *)
+Lemma lookup_inv ws s log p id c : PInv ws s log -> last_entry (entries s) p = Some (id, PPutPart p c) ->
+  spec_store log p = Some c /\
+  (forall i o, In (i, o) (keys (entries s)) -> pop_pid o = p -> (i <= id)%N) /\
+  (In id (map fst (keys (entries s))) \/ forall i o, In (i, o) (keys (entries s)) -> (id < i)%N).
+Proof.
+  intros I L. destruct (last_entry_max _ _ _ _ (proj1 (pi_ids _ _ _ I)) L) as (A & _ & C).
+  split; [|split; [exact C | left; exact A]].
+  rewrite (pi_spec _ _ _ I p), <- get_part_fold. unfold get_part. rewrite last_entry_for, L. reflexivity.
+Qed.
+Lemma last_entry_pid es p id o : last_entry es p = Some (id, o) -> pop_pid o = p.
+Proof.
+  unfold last_entry. destruct (find _ (rev es)) as [e|] eqn:F; [|discriminate].
+  pose proof (find_some _ _ F) as FS. destruct FS as [FS1 FS2]. cbn in FS2. apply N.eqb_eq in FS2. intros H; inversion H. exact FS2.
+Qed.
+
+Lemma rd_step ws s log a : PInv ws s log -> RInv s log -> reading_ok s a = true ->
+  RInv (fst (step_p s a)) (log ++ acc a).
+Proof.
+  intros I R Q. pose proof I as [Sp [Srt Flt] Ws One Hd Dn]. unfold RInv in *.
+  assert (LK : forall p r', reading (fst (match last_entry (entries s) p with
+              | None => ({| entries := entries s; inner_parts := inner_parts s; now := now s; pnext := pnext s;
+                            workers := workers s; listing := listing s; reading := None |}, PRContent (inner_parts s p))
+              | Some (_, PDelPart _) => ({| entries := entries s; inner_parts := inner_parts s; now := now s; pnext := pnext s;
+                            workers := workers s; listing := listing s; reading := None |}, PRContent None)
+              | Some (id, PPutPart _ c) => ({| entries := entries s; inner_parts := inner_parts s; now := now s; pnext := pnext s;
+                            workers := workers s; listing := listing s;
+                            reading := Some {| rd_pid := p; rd_tries := 1; rd_phase := RLooked id c |} |}, PROk)
+              end)) = Some r' ->
+            rd_tries r' = 1 /\
+            match rd_phase r' with
+            | RPre => forall i o, In (i, o) (keys (entries s)) -> pop_pid o <> rd_pid r'
+            | RLooked id c | RStream id c _ =>
+                spec_store log (rd_pid r') = Some c /\
+                (forall i o, In (i, o) (keys (entries s)) -> pop_pid o = rd_pid r' -> (i <= id)%N) /\
+                (In id (map fst (keys (entries s))) \/ forall i o, In (i, o) (keys (entries s)) -> (id < i)%N)
+            end).
+  { intros p r'. destruct (last_entry (entries s) p) as [[id [pp c|pp]]|] eqn:L; cbn [fst reading]; try discriminate.
+    intros H; inversion H; subst. cbn [rd_phase rd_pid rd_tries]. split; [reflexivity|].
+    pose proof (last_entry_pid _ _ _ _ L) as Ep. cbn in Ep. subst pp. exact (lookup_inv ws s log p id c I L). }
+  destruct a as [ops|ops|w|w|w|w|w|w|n|p| | | | | |p'|p'| ]; cbn [PartOutbox.step_p acc]; try rewrite app_nil_r.
+  - unfold reading_ok in Q. destruct (commit_ops (entries s) (pnext s) ops) as [es n]. cbn [fst reading].
+    intros r H. rewrite H in Q. discriminate.
+  - exact R.
+  - (* claim *) destruct (workers s w); try exact R. destruct (entries s) as [|e t] eqn:Es; cbn [fst]; [rewrite Es; exact R|].
+    destruct (claimable e (now s)); cbn [fst reading entries]; [|rewrite Es; exact R]. exact R.
+  - destruct (workers s w); exact R.
+  - (* finalize *)
+    destruct (workers s w) eqn:Ww; try exact R.
+    destruct (Hd w id o) as (e & t & E & I1 & I2 & I3); [rewrite Ww; reflexivity|].
+    assert (Own : owned_by e w = true) by (unfold owned_by; rewrite I3; apply Nat.eqb_refl).
+    assert (Ex : existsb (fun e0 => (pe_id e0 =? id)%N && owned_by e0 w) (entries s) = true).
+    { rewrite E. cbn. now rewrite I1, N.eqb_refl, Own. }
+    rewrite Ex. cbn [fst reading entries].
+    assert (Flt' : filter (fun e0 => negb ((pe_id e0 =? id)%N && owned_by e0 w)) (entries s) = t).
+    { rewrite E. cbn. rewrite I1, N.eqb_refl, Own. cbn.
+      rewrite E in Srt. cbn in Srt. inversion Srt as [|? ? S1 F1]; subst.
+      clear -F1. induction t as [|x t IH]; cbn in *; [reflexivity|]. inversion F1; subst.
+      replace (pe_id x =? pe_id e)%N with false by (symmetry; apply N.eqb_neq; lia). cbn. f_equal. auto. }
+    rewrite Flt'. intros r H. destruct (R r H) as [Rt R']. split; [exact Rt|]. clear R. rename R' into R.
+    destruct (rd_phase r) as [|id' c|id' c nx];
+      [intros i o' Hi; apply (R i o'); rewrite E; right; exact Hi|..];
+      (destruct R as (R1 & R2 & R3); rewrite E in R2, R3; cbn [keys map fst In] in R2, R3;
+       split; [exact R1|]; split; [intros i o' Hi; apply R2; right; exact Hi|];
+       rewrite E in Srt; cbn in Srt; inversion Srt as [|? ? S1 F1]; subst;
+       destruct R3 as [[R3|R3]|R3];
+       [ right; intros i o' Hi; unfold keys in Hi; apply in_map_iff in Hi as (x & Hx & Ix); inversion Hx; subst;
+         rewrite Forall_map, Forall_forall in F1; specialize (F1 x Ix); cbn in F1; lia
+       | left; exact R3
+       | right; intros i o' Hi; apply (R3 i o'); right; exact Hi ]).
+  - (* heartbeat *)
+    destruct (workers s w); cbn [fst reading entries]; try exact R;
+      (rewrite keys_map_entry by (intros e; destruct (owned_by e w); reflexivity); exact R).
+  - (* release *)
+    destruct (workers s w); try exact R. cbn [fst reading entries].
+    rewrite keys_map_entry by (intros e; destruct (owned_by e w); reflexivity). exact R.
+  - exact R.
+  - exact R.
+  - exact R.
+  - exact R.
+  - destruct (listing s); exact R.
+  - destruct (listing s) as [[?|?]|]; exact R.
+  - destruct (listing s); exact R.
+  - destruct (listing s) as [[?|?]|]; exact R.
+  - exact R.
+  - (* first lookup *)
+    destruct (reading s) eqn:Rd; [cbn [fst]; rewrite Rd; exact R|]. intros r' H.
+    apply LK in H. cbn [fst entries]. destruct (last_entry (entries s) p') as [[? [? ?|?]]|]; exact H.
+  - (* next lookup *)
+    destruct (reading s) as [r|] eqn:Rd; [|cbn [fst]; rewrite Rd; exact R]. destruct (R r eq_refl) as [Rt R']. clear R. rename R' into R.
+    destruct (rd_phase r) as [|id c|id c nx] eqn:Ph.
+    + rewrite Rt. cbn [Nat.leb]. rewrite (no_entry_last_none _ _ R). cbn [fst reading]. intros ? H; discriminate.
+    + destruct (present (entries s) id) eqn:Pr.
+      * destruct (nchunks c); cbn [fst reading entries]; intros r' H; inversion H; subst; cbn [rd_phase rd_pid rd_tries];
+          (split; [exact Rt | exact R]).
+      * cbn [fst reading entries]. intros r' H; inversion H; subst. cbn [rd_phase rd_pid rd_tries]. split; [exact Rt|].
+        destruct R as (R1 & R2 & R3). destruct R3 as [R3|R3].
+        -- apply present_keys in R3. congruence.
+        -- intros i o Hi Hp. specialize (R2 i o Hi Hp). specialize (R3 i o Hi). lia.
+    + destruct (present (entries s) id).
+      * destruct (Nat.ltb nx (nchunks c)); cbn [fst reading entries]; intros r' H; inversion H; subst; cbn [rd_phase rd_pid rd_tries];
+          (split; [exact Rt | exact R]).
+      * destruct (inner_parts s (rd_pid r)) as [c'|]; cbn [fst reading];
+          repeat (match goal with |- context [if ?x then _ else _] => destruct x end); cbn [fst reading]; intros r' H; discriminate.
+Qed.
+
+Lemma run_inv_read ws tr : forall s log, PInv ws s log -> RInv s log -> incl (trace_workers tr) ws ->
+  no_steal lease UP s ws tr = true -> quiet_reading lease UP s tr = true ->
+  PInv ws (fst (run_p s tr)) (log ++ committed tr) /\ RInv (fst (run_p s tr)) (log ++ committed tr).
+Proof.
+  induction tr as [|a t IH]; intros s log I R W NS Q; cbn [PartOutbox.run_p committed].
+  - rewrite app_nil_r. auto.
+  - cbn [no_steal] in NS. apply andb_true_iff in NS as [OK NS].
+    cbn [quiet_reading] in Q. apply andb_true_iff in Q as [Q1 Q2].
+    cbn [trace_workers flat_map] in W. apply incl_app_inv in W as [W1 W2].
+    pose proof (step_inv ws s log a I W1 OK) as I'.
+    pose proof (rd_step ws s log a I R Q1) as R'.
+    destruct (step_p s a) as [s1 r] eqn:E. cbn [fst] in *.
+    specialize (IH s1 _ I' R' W2 NS Q2). destruct (run_p s1 t) as [s2 rs]. cbn [fst] in *.
+    rewrite <- app_assoc in IH. destruct a; cbn [acc app] in *; exact IH.
+Qed.
+
+Lemma lookup_result ws s log p : PInv ws s log ->
+  match last_entry (entries s) p with
+  | None => inner_parts s p = spec_store log p
+  | Some (_, PDelPart _) => spec_store log p = None
+  | Some (_, PPutPart _ c) => spec_store log p = Some c
+  end.
+Proof.
+  intros I. rewrite (pi_spec _ _ _ I p), <- get_part_fold. unfold get_part. rewrite last_entry_for.
+  destruct (last_entry (entries s) p) as [[id [pp c|pp]]|]; reflexivity.
+Qed.
+
+(* the tx-free GetPart reflects the latest committed operation: as one snapshot (SQLite) and lookup by
+   lookup under statement-level isolation with flush steps of any worker in between *)
+Theorem txfree_read_reflects_latest_commit tr :
+  no_steal lease UP pinit (trace_workers tr) tr = true ->
+  quiet_reading lease UP pinit tr = true ->
+  let s := fst (run_p pinit tr) in
+  (forall p, snd (step_p s (SGetFree p)) = PRContent (spec_store (committed tr) p)) /\
+  (forall p, reading s = None ->
+     snd (step_p s (SRBegin p)) = PROk \/ snd (step_p s (SRBegin p)) = PRContent (spec_store (committed tr) p)) /\
+  (forall r, reading s = Some r ->
+     snd (step_p s SRStep) = PROk \/ snd (step_p s SRStep) = PRContent (spec_store (committed tr) (rd_pid r))).
+Proof.
+  intros NS Q s.
+  assert (R0 : RInv pinit []) by (intros r H; discriminate H).
+  destruct (run_inv_read _ tr pinit [] (PInv_init _) R0 (incl_refl _) NS Q) as [I R]. cbn [app] in I, R. fold s in I, R.
+  split; [|split].
+  - intros p. cbn [PartOutbox.step_p snd]. f_equal. rewrite get_part_fold. symmetry. apply (pi_spec _ _ _ I).
+  - intros p H. cbn [PartOutbox.step_p]. rewrite H. pose proof (lookup_result _ s _ p I) as L.
+    destruct (last_entry (entries s) p) as [[id [pp c|pp]]|]; cbn [snd]; [left; reflexivity | right; now rewrite L | right; now rewrite L].
+  - intros r H. destruct (R r H) as [Rt R']. cbn [PartOutbox.step_p]. rewrite H.
+    destruct (rd_phase r) as [|id c|id c nx].
+    + rewrite Rt. cbn [Nat.leb]. rewrite (no_entry_last_none _ _ R'). cbn [snd]. right. f_equal.
+      pose proof (lookup_result _ s _ (rd_pid r) I) as L. rewrite (no_entry_last_none _ _ R') in L. exact L.
+    + destruct R' as (R1 & R2 & R3). destruct (present (entries s) id); [|left; reflexivity].
+      destruct (nchunks c); cbn [snd]; [right; now rewrite R1 | left; reflexivity].
+    + destruct R' as (R1 & R2 & R3). destruct (present (entries s) id) eqn:Pr.
+      * destruct (Nat.ltb nx (nchunks c)); cbn [snd]; [left; reflexivity | right; now rewrite R1].
+      * assert (NoP : forall i o, In (i, o) (keys (entries s)) -> pop_pid o <> rd_pid r).
+        { destruct R3 as [R3|R3]; [apply present_keys in R3; congruence|].
+          intros i o Hi Hp. specialize (R2 i o Hi Hp). specialize (R3 i o Hi). lia. }
+        pose proof (lookup_result _ s _ (rd_pid r) I) as L. rewrite (no_entry_last_none _ _ NoP) in L.
+        rewrite L, R1, N.eqb_refl.
+        assert (LE : (psize c <? emitted c nx)%N = false).
+        { apply N.ltb_ge. unfold emitted, psize, nchunks. destruct (c =? 0)%N; [destruct nx; lia|].
+          destruct (900 <=? c)%N; [destruct nx as [|[|?]]; lia | destruct nx; lia]. }
+        rewrite LE. cbn [snd]. right. reflexivity.
 Qed.
 
 (* one worker never steals *)
